@@ -124,8 +124,25 @@ def sort_rules(ctx: Ctx, rule: str):
                 pos[attr] = i
     ok = "priority" in pos and "seqno" in pos and pos["priority"] < pos["seqno"] and \
         all(pos["priority"] < v for k, v in pos.items() if k != "priority")
+    # ... and nothing that varies with the task stands in front of it (round 8, C09-13: a component computed from the task's
+    # direction and end date was put before the priority): a component ahead of the priority must not depend on the key's argument
+    params = set(sk.params)
+
+    def varies(e, depth=0):
+        for x in ast.walk(e):
+            if isinstance(x, ast.Name):
+                if x.id in params:
+                    return True
+                if depth < 6 and any(varies(d, depth + 1) for d in res(x) if d is not x):
+                    return True
+        return False
+
+    lead = [norm(el) for el in tup.elts[:pos.get("priority", 0)] if varies(el)]
+    if lead:
+        ok = False
     ctx.ob(rule, f"{sk.qual}: component order {pos}", (sk, rets[0]), ok, "priority decides before any tie-breaker" if ok else
-           "priority is not the leading component of the sort key", key=f"{rule}|sort_key|positions")
+           ("priority is not the leading component of the sort key" + (f": {lead} is compared first and varies with the task" if lead else "")),
+           key=f"{rule}|sort_key|positions")
     # default priority
     proj = repo.func("Project._define_task_attributes")
     dflt = None
